@@ -235,7 +235,9 @@ func c19Check(c *core.Case, cs *canaries, d hcl.Diagnostics, src []byte, filenam
 				return false
 			}
 			if c19Recheck != nil && c19Recheck() {
-				c.Violation("iteration-variable-over-marked-collection", fmt.Sprintf("%s: the %s of diagnostic %q shows a secret taken from an iteration variable bound to a bare element of a marked collection (no leak when the elements carry the mark themselves):\n%s", what, where, sum, trunc(t, 700)), map[string]any{"canary": hit})
+				// (classed per message: which messages quote an operand is a finite list, and
+				// a message that starts doing so is a separate finding)
+				c.Violation("iteration-variable-over-marked-collection/"+where+"/"+sum, fmt.Sprintf("%s: the %s of diagnostic %q shows a secret taken from an iteration variable bound to a bare element of a marked collection (no leak when the elements carry the mark themselves):\n%s", what, where, sum, trunc(t, 700)), map[string]any{"canary": hit})
 				return false
 			}
 			if c19RecheckKeys != nil && len(c19Bound) > 0 && c19RecheckKeys() {
@@ -386,6 +388,10 @@ var c19Directed = []string{
 	`okey.@NEAR1@`, `okeys.@NEAR2@`, `onest.auth.@NEAR1@`, `[for v in [okey]: v.@NEAR1@]`, `okey[*].@NEAR1@`, `{(s) = 1}.@NEARS@`, `{for k in [s]: k => 1}.@NEARS@`, `[okeys][0].@NEAR2@`, `okey["@NEAR1@"]`, `okeys["@NEAR2@"]`,
 	// JSON syntax
 	`JSON:{"${s}": 1, "${s}": 2}`, `JSON:{"${s}": 1, "${s}${t}": 2, "${s}x": 3}`, `JSON:{"a": "${okey.@NEAR1@}"}`, `JSON:{"${s}": "${s + 1}"}`, `JSON:["${lst[s]}", {"${n}": "${-s}"}]`,
+	// a collection marked as a whole that holds the same secret twice (dl), and one
+	// that holds the same secret number twice (dn)
+	`{for v in dl: v => 1}`, `{for i, v in dl: "${v}" => i}`, `{for v in dl: upper(v) => 1}`, `{for v in dl: (dl[*])[0] => v}`, `{for v in dn: v => 1}`, `{for v in dn: "k${v}" => 1}`,
+	`{for k, v in {a = dl[0], b = dl[1]}: v => k}`, `[for v in dl: {(v) = 1, (v) = 2}]`,
 	`"${s}" + 1`, `"${n}x" * 2`, `("${n}") + s`, `upper("${n}") - 1`, `{(upper(s)) = 1}["x"]`, `{"${s}" = 1}.nope`,
 }
 
@@ -396,6 +402,14 @@ func c19DirectedCase(c *core.Case, src string) {
 	c19Scope(r, sc, cs)
 	if _, ok := sc.Vars["nul"]; !ok {
 		sc.Set("nul", cty.NullVal(cty.DynamicPseudoType))
+	}
+	{
+		ds := newCanaryStr(r)
+		cs.strs = append(cs.strs, ds)
+		sc.Set("dl", cty.ListVal([]cty.Value{cty.StringVal(ds), cty.StringVal(ds), cty.StringVal("other")}).Mark(c19Mark))
+		dd, dv := newCanaryNum(r)
+		cs.nums = append(cs.nums, dd)
+		sc.Set("dn", cty.TupleVal([]cty.Value{dv, dv}).Mark(c19Mark))
 	}
 	tpl := src
 	if len(cs.keys) == 3 && len(cs.strs) > 0 {
